@@ -229,6 +229,9 @@ def to_events(log):
                 e = {"ev": "ann", "var": "c", "val": arg}
             elif name == "raiseb":
                 e = {"ev": "raise", "val": arg}
+            elif name == "decl":
+                # a declared-only variable nobody supplies: the call fails there with ptera's name error (code 999999)
+                e = {"ev": "raise", "val": 799999}
             elif name.startswith("sloop_"):
                 e = {"ev": "sloop", "var": name[-1], "val": 0}
             else:
@@ -258,7 +261,7 @@ def run_case(case, mode):
                 st.enter_context(cm)
             try:
                 rt.res(world.f(case.get("arg", 0)))
-            except rt.ScriptBase:
+            except (rt.ScriptBase, NameError):
                 rt.caught()
     except rt.BadScript as ex:
         # the instrumented world consumed the script differently from what the script describes (e.g. an exception
